@@ -570,6 +570,14 @@ class SU64(Sym):
     def __truediv__(self, o):
         return STrueDiv(SInt(z3.BV2Int(self.t, False)), o)
 
+    def __floordiv__(self, o):
+        d = _u64(o)
+        return SU64(z3.If(d == 0, z3.BitVecVal(0, 64), z3.UDiv(self.t, d)))   # NumPy: x // 0 == 0 (with a warning)
+
+    def __mod__(self, o):
+        d = _u64(o)
+        return SU64(z3.If(d == 0, z3.BitVecVal(0, 64), z3.URem(self.t, d)))
+
     def _cmp(self, o, f, const_out_of_range):
         if isinstance(o, int) and not isinstance(o, bool) and not 0 <= o <= _M64:
             return const_out_of_range(o)
